@@ -177,6 +177,13 @@ func (m *MdatBox) PayloadAbsoluteOffset() uint64 {
 	return m.StartPos + m.HeaderSize()
 }
 
+// isInsideLazyPayload checks that the file range lies inside the payload of a lazily decoded mdat.
+func (m *MdatBox) isInsideLazyPayload(start, size int64) bool {
+	payloadStart := m.PayloadAbsoluteOffset()
+	return start >= 0 && size >= 0 && uint64(start) >= payloadStart &&
+		uint64(start)+uint64(size) <= payloadStart+m.lazyDataSize
+}
+
 // ReadData reads Mdat data specified by the start and size.
 // Input argument start is the position relative to the start of a file.
 // The ReadSeeker is used for lazily loaded mdat case.
@@ -185,6 +192,9 @@ func (m *MdatBox) ReadData(start, size int64, rs io.ReadSeeker) ([]byte, error) 
 	if m.lazyDataSize > 0 {
 		if rs == nil {
 			return nil, errors.New("lazy mdat mode - expects non-nil readseeker to read data")
+		}
+		if !m.isInsideLazyPayload(start, size) {
+			return nil, fmt.Errorf("lazy mdat mode - invalid range provided")
 		}
 
 		_, err := rs.Seek(start, io.SeekStart)
@@ -224,6 +234,9 @@ func (m *MdatBox) CopyData(start, size int64, rs io.ReadSeeker, w io.Writer) (nr
 	if m.lazyDataSize > 0 {
 		if rs == nil {
 			return 0, errors.New("lazy mdat mode - expects non-nil readseeker to read data")
+		}
+		if !m.isInsideLazyPayload(start, size) {
+			return 0, fmt.Errorf("lazy mdat mode - invalid range provided")
 		}
 
 		_, err := rs.Seek(start, io.SeekStart)
